@@ -138,3 +138,109 @@ Example ex_c15_optimal_q_hypotheses :
     @is_inverse QcF 2%nat Kzz Kinv /\ @is_inverse QcF 2%nat (@opt_Sigma QcF 3%nat Kzz Kzx Di) Si.
 Proof. exact ex_opt_hypotheses. Qed.
 Print Assumptions ex_c15_optimal_q_hypotheses.
+
+(* ======================================================================================== *)
+(* grown part (Proofs/C15_kl.v, Proofs/C13_tie.v)                                            *)
+From GPV Require Import Models.C10_mvn Proofs.C10_kl Models.C14_variational Proofs.C15_kl.
+From GPV Require Import Models.C13_quadrature Proofs.C13_moments Proofs.C13_tie.
+
+(* the moment functional [expect_poly] of this property is C13's: recurrence form for every
+   variance, binomial form (standard-normal moments through f = m + sd z) with v = sd^2;
+   every degree, every field *)
+Theorem c15_expect_poly_is_c13_normal_expect :
+  forall (K : Fld) (m sd : car) (p : list car),
+    expect_poly m (fmul sd sd) p = normal_expect_sd m sd p /\
+    forall v, expect_poly m v p = normal_expect_var m v p.
+Proof.
+  intros K m sd p.
+  exact (conj (expect_poly_is_normal_expect_sd m sd p) (fun v => expect_poly_is_normal_expect_var m v p)).
+Qed.
+Print Assumptions c15_expect_poly_is_c13_normal_expect.
+
+(* KL >= 0, mean-field FULL: q(u) = N(mq, diag sq) against p(u) = N(mp, diag sp), every size, any
+   means, any positive variances (2 KL = sum_i sq_i/sp_i + (mq_i - mp_i)^2/sp_i - 1 - ln(sq_i/sp_i));
+   [c15_kl_nonneg_meanfield_partial] is the special case sp = 1, mp = 0 *)
+Theorem c15_kl_nonneg_meanfield :
+  forall n (mq sq mp sp : nat -> R),
+    (forall i, (i < n)%nat -> (0 < sq i)%R) -> (forall i, (i < n)%nat -> (0 < sp i)%R) ->
+    (0 <= kl2_diag n mq sq mp sp)%R.
+Proof. exact kl2_diag_nonneg. Qed.
+Print Assumptions c15_kl_nonneg_meanfield.
+
+(* ... with equality exactly at q = p *)
+Theorem c15_kl_zero_iff_meanfield :
+  forall n (mq sq mp sp : nat -> R),
+    (forall i, (i < n)%nat -> (0 < sq i)%R) -> (forall i, (i < n)%nat -> (0 < sp i)%R) ->
+    (kl2_diag n mq sq mp sp = 0%R <-> forall i, (i < n)%nat -> sq i = sp i /\ mq i = mp i).
+Proof. exact kl2_diag_zero_iff. Qed.
+Print Assumptions c15_kl_zero_iff_meanfield.
+
+(* [kl2_diag] is the model's KL on diagonal matrices: rational part [kl_unwh_alg] (C14) - n plus
+   the log-determinant difference written as sum_i ln sp_i - sum_i ln sq_i.
+   (That sum_i ln d_i = ln det diag(d) for the Laplace determinant of Base/Exec.v is not used
+   here; it is the triangular-determinant lemma of Base/Det.v.) *)
+Theorem c15_kl_meanfield_is_model_kl :
+  forall n (sq sp : nat -> R) (mq mz : @M RF),
+    (forall i, (i < n)%nat -> (0 < sq i)%R) -> (forall i, (i < n)%nat -> (0 < sp i)%R) ->
+    (@kl_unwh_alg RF n (@mdiag RF (fun i => / sp i)) (@mdiag RF sq) mq mz - @fnat RF n
+     + (@sum RF n (fun i => ln (sp i)) - @sum RF n (fun i => ln (sq i))))%R
+    = kl2_diag n (fun i => mq i O) sq (fun i => mz i O) sp.
+Proof. exact kl2_diag_is_model_kl. Qed.
+Print Assumptions c15_kl_meanfield_is_model_kl.
+
+Theorem c15_kl_meanfield_whitened_case :
+  forall n (s mw : nat -> R),
+    kl2_diag n mw s (fun _ => 0%R) (fun _ => 1%R)
+    = @sum RF n (fun i => (s i + mw i * mw i - 1 - ln (s i))%R).
+Proof. exact kl2_diag_whitened. Qed.
+Print Assumptions c15_kl_meanfield_whitened_case.
+
+(* ELBO <= likelihood term, at the generality of the KL statement: diagonal q, diagonal prior *)
+Theorem c15_elbo_le_likelihood_term_meanfield :
+  forall n (mq sq mp sp : nat -> R) (ell nb beta nd lp added : R),
+    (forall i, (i < n)%nat -> (0 < sq i)%R) -> (forall i, (i < n)%nat -> (0 < sp i)%R) ->
+    (0 < beta)%R -> (0 < nd)%R ->
+    (@elbo_value RF ell nb (/ 2 * kl2_diag n mq sq mp sp) beta nd lp added
+     <= ell / nb + lp / nd - added)%R.
+Proof. exact elbo_le_likelihood_term_diag. Qed.
+Print Assumptions c15_elbo_le_likelihood_term_meanfield.
+
+(* the gap in that bound is exactly (beta / N) KL *)
+Theorem c15_elbo_gap_is_scaled_kl :
+  forall (ell nb kl beta nd lp added : R), beta <> 0%R -> nd <> 0%R ->
+    (ell / nb + lp / nd - added - @elbo_value RF ell nb kl beta nd lp added = beta / nd * kl)%R.
+Proof. exact elbo_gap_is_scaled_kl. Qed.
+Print Assumptions c15_elbo_gap_is_scaled_kl.
+
+(* FULL covariance through C10's Cholesky form: q(u) = N(mq, Lq Lq^T), prior precision
+   Kzz^-1 = Li^T Li, W = Li Lq with positive diagonal (automatic for Cholesky factors):
+   2 KL = [kl_unwh_alg] - n - sum_i ln W_ii^2 >= 0, hence the ELBO bound for every such q(u).
+   The log-det term is in factor form; ln det Kzz - ln det S = - sum_i ln W_ii^2 (determinant of a
+   triangular product) is not part of this statement. *)
+Theorem c15_kl_nonneg_cholesky :
+  forall n (mq mz Lq Li : @M RF),
+    (forall i, (i < n)%nat -> (0 < @mmul RF n Li Lq i i)%R) ->
+    (0 <= kl2_chol_model n mq mz Lq Li)%R.
+Proof. exact kl2_chol_model_nonneg. Qed.
+Print Assumptions c15_kl_nonneg_cholesky.
+
+Theorem c15_elbo_le_likelihood_term_cholesky :
+  forall n (mq mz Lq Li : @M RF) (ell nb beta nd lp added : R),
+    (forall i, (i < n)%nat -> (0 < @mmul RF n Li Lq i i)%R) -> (0 < beta)%R -> (0 < nd)%R ->
+    (@elbo_value RF ell nb (/ 2 * kl2_chol_model n mq mz Lq Li) beta nd lp added
+     <= ell / nb + lp / nd - added)%R.
+Proof. exact elbo_le_likelihood_term_chol. Qed.
+Print Assumptions c15_elbo_le_likelihood_term_cholesky.
+
+(* the model's rational KL part (C14) is C10's [kl_rational] with q(u) in the first slot *)
+Theorem c15_kl_alg_is_c10_kl_rational :
+  forall (K : Fld) n (Kinv S mq mz : M),
+    fsub (kl_unwh_alg n Kinv S mq mz) (fnat n) = kl_rational n mq S mz Kinv.
+Proof. intros K. exact (@kl_unwh_alg_is_kl_rational K). Qed.
+Print Assumptions c15_kl_alg_is_c10_kl_rational.
+
+(* non-vacuity of the Cholesky hypothesis: unit factors, every size *)
+Example ex_c15_cholesky_hypothesis :
+  forall n i, (i < n)%nat -> (0 < @mmul RF n (@mI RF) (@mI RF) i i)%R.
+Proof. exact ex_kl2_chol_hyp. Qed.
+Print Assumptions ex_c15_cholesky_hypothesis.
